@@ -34,7 +34,7 @@ mod imp {
     }
 
     /// Extra accepted query shapes the repository corpus does not contain (numbers schema).
-    const EXTRA: [(&str, &str); 30] = [
+    const EXTRA: [(&str, &str); 32] = [
         ("x_tag_twice_in_fold", r#"{ Number(min: 2, max: 4) { value @tag(name: "v") @output multiple(max: 3) @fold { value @output(name: "m") @filter(op: ">", value: ["%v"]) @filter(op: "!=", value: ["%v"]) } } }"#),
         ("x_tag_in_fold_and_nested_fold", r#"{ Number(min: 2, max: 4) { value @tag(name: "v") @output multiple(max: 3) @fold { value @output(name: "m") @filter(op: ">", value: ["%v"]) divisor @fold { value @output(name: "d") @filter(op: "<=", value: ["%v"]) } } } }"#),
         ("x_tag_only_in_nested_fold", r#"{ Number(min: 2, max: 4) { name @output value @tag(name: "v") multiple(max: 3) @fold { value @output(name: "m") divisor @fold { value @output(name: "d") @filter(op: "<=", value: ["%v"]) } } } }"#),
@@ -64,6 +64,8 @@ mod imp {
         ("x_regex_with_optional_tag", r#"{ Number(min: 0, max: 6) { value @output predecessor @optional { name @tag(name: "pn") } successor { name @output(name: "sn") @filter(op: "not_regex", value: ["%pn"]) } } }"#),
         ("x_one_of_with_repeated_values", r#"{ Number(min: 0, max: 6) { value @output @filter(op: "one_of", value: ["$dups"]) successor { value @output(name: "s") @filter(op: "one_of", value: ["$dups"]) } } }"#),
         ("x_one_of_with_repeated_values_in_fold", r#"{ Number(min: 0, max: 4) { value @output multiple(max: 3) @fold { value @output(name: "m") @filter(op: "one_of", value: ["$dups"]) } } }"#),
+        ("x_fold_with_three_vertices_using_three_outer_tags", r#"{ Number(min: 2, max: 4) { value @tag(name: "a") @output name @tag(name: "b") vowelsInName @tag(name: "c") multiple(max: 3) @fold { value @output(name: "m") @filter(op: ">", value: ["%a"]) successor { name @filter(op: "!=", value: ["%b"]) predecessor { vowelsInName @filter(op: "!=", value: ["%c"]) successor { value @filter(op: ">", value: ["%a"]) name @filter(op: "!=", value: ["%b"]) } } } } } }"#),
+        ("x_nested_folds_importing_tags_in_reverse_order", r#"{ Number(min: 2, max: 4) { value @tag(name: "a") @output name @tag(name: "b") vowelsInName @tag(name: "c") multiple(max: 3) @fold { vowelsInName @filter(op: "!=", value: ["%c"]) value @output(name: "m") divisor @fold { name @filter(op: "!=", value: ["%b"]) value @output(name: "d") successor { value @filter(op: ">", value: ["%a"]) } } } } }"#),
         ("x_variable_used_twice", r#"{ Number(min: 0, max: 5) { value @output @filter(op: ">=", value: ["$x"]) successor { value @filter(op: "!=", value: ["$x"]) } } }"#),
     ];
 
